@@ -47,15 +47,16 @@ func c18Resolve(c *c18Case, base string) (*stack.Snapshot, []fileTruth, []*stack
 		return nil, nil, nil, fmt.Errorf("HARNESS: %v", err)
 	}
 	truths := c.L.truths(base)
+	at := c.L.at(base)
 	if c.L.TestMain {
 		tm := testMainPath
 		switch {
 		case c.L.TestMainAt == 1 && len(c.L.Gopaths) > 0:
-			tm = c.L.Gopaths[0].Remote + "/src/example.com/p/_test/_testmain.go"
+			tm = at.Gopaths[0].Remote + "/src/example.com/p/_test/_testmain.go"
 		case c.L.TestMainAt == 2 && len(c.L.Modules) > 0:
 			tm = base + "/" + c.L.Modules[0].Dir + "/_test/_testmain.go"
 		case c.L.TestMainAt == 3 && c.L.GorootRemote != "":
-			tm = c.L.GorootRemote + "/src/fmt/_test/_testmain.go"
+			tm = at.GorootRemote + "/src/fmt/_test/_testmain.go"
 		}
 		truths = append(truths, fileTruth{Remote: tm, Loc: stack.Stdlib, Testmain: true})
 	}
